@@ -16,11 +16,18 @@ class ReplayDivergence(Exception):
     pass
 
 
+CURRENT = None      # the scheduler of the execution in progress (None outside explorations)
+
+
 class CoopLock:
     """re-entrant cooperative lock that yields to the scheduler instead of blocking the OS thread"""
 
-    def __init__(self, sched):
-        self.sched = sched; self.owner = None; self.count = 0
+    def __init__(self, sched="current"):
+        self._sched = sched; self.owner = None; self.count = 0
+
+    @property
+    def sched(self):
+        return CURRENT if self._sched == "current" else self._sched
 
     def acquire(self, blocking=True, timeout=-1):
         s = self.sched
@@ -34,6 +41,9 @@ class CoopLock:
             s.block_on(self)
 
     def release(self):
+        s = self.sched
+        if s is not None and s.cur is not None and self.owner != s.cur:
+            raise RuntimeError("cannot release un-acquired lock")      # what threading.RLock does when another thread releases it
         self.count -= 1
         if self.count <= 0:
             self.owner = None; self.count = 0
@@ -45,6 +55,66 @@ class CoopLock:
 
     def __exit__(self, *a):
         self.release()
+
+
+class CoopEvent:
+    """threading.Event whose wait() yields to the scheduler (a waiting thread is 'blocked', not spinning)"""
+
+    def __init__(self):
+        self.flag = False
+
+    def is_set(self):
+        return self.flag
+
+    def set(self):
+        self.flag = True
+        s = CURRENT
+        if s is not None and s.cur is not None:
+            s.unblock(self)
+
+    def clear(self):
+        self.flag = False
+
+    def wait(self, timeout=None):
+        s = CURRENT
+        if s is None or s.cur is None:
+            return self.flag
+        while True:
+            s.point()
+            if self.flag:
+                return True
+            s.block_on(self)
+
+
+class _ThreadingShim:
+    """stands in for the `threading` module inside einx's modules: synchronisation objects created by einx while an exploration runs are
+    cooperative; everything else is the real thing"""
+
+    def __getattr__(self, name):
+        return getattr(threading, name)
+
+    @staticmethod
+    def Lock():
+        return CoopLock()
+
+    @staticmethod
+    def RLock():
+        return CoopLock()
+
+    @staticmethod
+    def Event():
+        return CoopEvent()
+
+
+def install_threading_shim(module_prefix="einx"):
+    """einx modules that did `import threading` get the shim (objects they created at import time are handled by cooperative())"""
+    import sys
+    n = 0
+    shim = _ThreadingShim()
+    for name, mod in list(sys.modules.items()):
+        if (name == module_prefix or name.startswith(module_prefix + ".")) and getattr(mod, "threading", None) is threading:
+            mod.threading = shim; n += 1
+    return n
 
 
 class Sched:
@@ -189,3 +259,18 @@ def explore(run_once, bound, root=None, max_exec=None):
         if max_exec and n >= max_exec:
             return
         stack.extend(children(trace, len(choices), bound))
+
+
+def cooperative(lock, sched_):
+    """a cooperative stand-in for whatever lock object einx uses: a primitive Lock/RLock becomes a CoopLock; any other lock-like object is
+    copied and the primitive locks among its attributes are replaced, so that the object's own locking logic is executed (and pre-empted)"""
+    import copy
+    import _thread
+    prim = (_thread.LockType, _thread.RLock)
+    if isinstance(lock, (CoopLock,) + prim):
+        return CoopLock(sched_)
+    new = copy.copy(lock)
+    for k, v in list(vars(new).items()):
+        if isinstance(v, (CoopLock,) + prim):
+            setattr(new, k, CoopLock(sched_))
+    return new
